@@ -144,6 +144,9 @@ impl<'a> From<AnyChunk<'a>> for AnyStats<'a> {
 #[derive(Clone, Copy, PartialEq, Eq)]
 pub struct AnyChunk<'a> {
     header: NonNull<ChunkHeader>,
+    /// Size of the `ChunkHeader<A>` of the bump allocator this chunk came from.
+    /// It depends on the base allocator type, which is erased here.
+    header_size: usize,
     marker: PhantomData<&'a ()>,
 }
 
@@ -154,6 +157,7 @@ where
     fn from(value: Chunk<'_, A, S>) -> Self {
         Self {
             header: value.chunk.header().cast(),
+            header_size: core::mem::size_of::<ChunkHeader<A>>(),
             marker: PhantomData,
         }
     }
@@ -186,6 +190,7 @@ impl<'a> AnyChunk<'a> {
     pub fn prev(self) -> Option<Self> {
         Some(AnyChunk {
             header: self.header().prev.get()?,
+            header_size: self.header_size,
             marker: PhantomData,
         })
     }
@@ -196,6 +201,7 @@ impl<'a> AnyChunk<'a> {
     pub fn next(self) -> Option<Self> {
         Some(AnyChunk {
             header: self.header().next.get()?,
+            header_size: self.header_size,
             marker: PhantomData,
         })
     }
@@ -326,7 +332,7 @@ impl<'a> AnyChunk<'a> {
     }
 
     fn after_header(self) -> NonNull<u8> {
-        unsafe { self.header.add(1).cast() }
+        unsafe { self.header.cast::<u8>().add(self.header_size) }
     }
 }
 
